@@ -156,13 +156,10 @@ def run(rep):
         except Exception:
             claims.append(None)
     explorable = [i for i, c in enumerate(claims) if c is not None]
-    cf = os.path.join(wd, 'claims.json')
-    with open(cf, 'w') as f:
-        json.dump([claims[i] for i in explorable], f)
     recs = []
     if explorable:
         res, wd2 = mprun.explore([progs[i] for i in explorable], module='Liveness', spec='MSpec', invariants=('Report',),
-                                 env=dict(CLAIM_FILE=cf), bounds=mpmon.bounds(tier), name='c01', timeout=3000)
+                                 claims=[claims[i] for i in explorable], bounds=mpmon.bounds(tier), name='c01', timeout=3000)
         rep.add_tlc(res)
         for r in res.json:
             r['pid'] = explorable[r['pid'] - 1] + 1
